@@ -175,3 +175,37 @@ pub fn eval(src: &str) -> Outcome { Session::new().run(src) }
 pub fn install_quiet_panic_hook() {
   std::panic::set_hook(Box::new(|_| {}));
 }
+
+/// kind name of every top-level section element (title and subtitles included), in document order
+pub fn element_kinds(tree: &Program) -> Vec<String> {
+  let mut out = vec![];
+  if tree.title.is_some() { out.push("Title".to_string()); }
+  for s in &tree.body.sections {
+    if s.subtitle.is_some() { out.push("SectionSubtitle".to_string()); }
+    for e in &s.elements { out.push(element_kind(e)); }
+  }
+  out
+}
+pub fn element_kind(e: &SectionElement) -> String {
+  match e {
+    SectionElement::MechCode(items) => format!("MechCode({})", items.len()),
+    SectionElement::FencedMechCode(b) => format!("FencedMechCode(ns={},disabled={})", if b.config.namespace == 0 { "0".to_string() } else { "named".to_string() }, b.config.disabled),
+    SectionElement::Paragraph(_) => "Paragraph".into(), SectionElement::List(_) => "List".into(), SectionElement::QuoteBlock(_) => "QuoteBlock".into(),
+    SectionElement::Table(_) => "Table".into(), SectionElement::CodeBlock(_) => "CodeBlock".into(), SectionElement::ThematicBreak => "ThematicBreak".into(),
+    SectionElement::Subtitle(_) => "Subtitle".into(), SectionElement::Comment(_) => "Comment".into(), SectionElement::Error(..) => "Error".into(),
+    other => format!("{:?}", other).split(|c: char| !c.is_alphanumeric()).next().unwrap_or("Other").to_string(),
+  }
+}
+
+/// parse and interpret a whole document (prose allowed); returns element kinds, outcome, main snapshot and the snapshots of named fences
+pub fn run_document(src: &str) -> Result<(Vec<String>, Outcome, Snapshot, Vec<(u64, Snapshot)>), String> {
+  let tree = match catch_unwind(AssertUnwindSafe(|| parser::parse(src))) { Err(e) => return Err(format!("parse panic: {}", panic_msg(e))), Ok(Err(e)) => return Err(format!("parse error: {}", e.kind_name())), Ok(Ok(t)) => t };
+  let kinds = element_kinds(&tree);
+  let mut sess = Session::new();
+  let out = sess.run_tree(&tree);
+  let main = sess.snapshot();
+  let subs = sess.intrp.sub_interpreters.borrow();
+  let mut named: Vec<(u64, Snapshot)> = subs.iter().map(|(id, i)| (*id, snapshot_of(i))).collect();
+  named.sort_by_key(|x| x.0);
+  Ok((kinds, out, main, named))
+}
